@@ -708,6 +708,11 @@ func (g *gen) execUnOp(x *ssa.UnOp, st *state) {
 			v, _ := g.globalVar(st, gl)
 			g.vals[x] = v
 			g.assumeAllocated(st, v, x.Type())
+			if gl.Pkg != nil && !g.P.isYq(gl.Pkg.Pkg.Path()) && types.TypeString(x.Type(), nil) == "error" && (gl.Name() == "EOF" || strings.HasPrefix(gl.Name(), "Err")) {
+				// sentinel errors of libraries (io.EOF, io.ErrUnexpectedEOF, ...) are never nil
+				g.assume(sNot(sEq(app("i.typ", v), "0")))
+				g.P.usedAssumption("library sentinel error " + gl.String() + " is non-nil")
+			}
 			return
 		}
 		ref := g.val(st, x.X)
@@ -1058,7 +1063,7 @@ func (g *gen) checkFuncConversion(x *ssa.ChangeType) {
 	if _, isSig := nt.Underlying().(*types.Signature); !isSig {
 		return
 	}
-	tcon := g.P.getContract("functype "+nt.Obj().Name())
+	tcon := g.P.getContract("functype " + nt.Obj().Name())
 	if tcon == nil || !g.opts.frames {
 		return
 	}
